@@ -984,10 +984,10 @@ def run(rec, only=None):
     ]
     for name, cases, oracle in enumerated:
         core.drive_cases(rec, name, cases, oracle)
-    core.drive_hypothesis(rec, "echo", echo_case(), oracle_echo, 1500 if quick else 40000)
-    core.drive_hypothesis(rec, "responses", response_case(), oracle_responses, 1000 if quick else 25000, seed_offset=1)
-    core.drive_hypothesis(rec, "apps", app_case(), oracle_apps, 1200 if quick else 30000, seed_offset=2)
-    core.drive_hypothesis(rec, "conditional", conditional_case(), oracle_conditional, 500 if quick else 12000, seed_offset=3)
+    core.drive_hypothesis(rec, "echo", echo_case(), oracle_echo, 1500 if quick else 360000)
+    core.drive_hypothesis(rec, "responses", response_case(), oracle_responses, 1000 if quick else 80000, seed_offset=1)
+    core.drive_hypothesis(rec, "apps", app_case(), oracle_apps, 1200 if quick else 90000, seed_offset=2)
+    core.drive_hypothesis(rec, "conditional", conditional_case(), oracle_conditional, 500 if quick else 36000, seed_offset=3)
     for k in SUBS:
         rec.exhaustive[k] = False
     for name, _cases, _oracle in enumerated:
